@@ -477,7 +477,7 @@ def from_model(run, repo):
     n = 0
     for (qual, mod, extra), behaviour in itertools.product(
             ((NASA + '.Nasa', NASA, {}), (NASA + '.Nasa9', NASA, {}), (SHO + '.Shomate', SHO, {})),
-            ('vector', 'scalar', 'raises')):
+            ('vector', 'scalar', 'raises', 'vector, name and range taken from the model')):
         # how the source model answers a call with the whole temperature grid: element by element, with one number
         # (HarmonicVib when the number of modes equals the number of temperatures), or with ValueError
         ci = repo.cls(qual)
@@ -507,7 +507,15 @@ def from_model(run, repo):
         for q in ('get_CpoR', 'get_HoRT', 'get_SoR'):
             model.opaque_methods[q] = mk(q)
         model.attrs.update({'name': 'm', 'elements': DictV({'A': D.sym('nA')})})
-        model.missing = {'T_low', 'T_high'}     # a model without its own validity range
+        from_model_attrs = behaviour.endswith('from the model')
+        if from_model_attrs and qual.endswith('Nasa9'):
+            continue        # Nasa9.from_model requires name, T_low and T_high (no defaults in its signature)
+        if from_model_attrs:
+            # name and temperature window are not passed: they are the model's own
+            model.attrs.update({'T_low': D.sym('T_low'), 'T_high': D.sym('T_high')})
+            behaviour = 'vector'
+        else:
+            model.missing = {'T_low', 'T_high'}     # a model without its own validity range
         cap = {}
 
         def capture(I_, fr, args, kwargs, nd):
@@ -525,13 +533,20 @@ def from_model(run, repo):
             return res
         I.native['scipy.optimize.minimize'] = mini
         Tl, Th = D.sym('T_low'), D.sym('T_high')
-        kw = {'model': model, 'name': 'sp', 'T_low': Tl, 'T_high': Th}
+        kw = {'model': model} if from_model_attrs else {'model': model, 'name': 'sp', 'T_low': Tl, 'T_high': Th}
         if qual.endswith('Nasa9'):
             tm = ListV([D.sym('Tm0')])
             tm.is_array = True
             kw['T_mid'] = tm
         r = I.call_function(owner.module, fn, [], kw, self_obj=ci, owner=owner, name=owner.qual + '.from_model')
         con = '%s.%s.from_model' % (mod.split('.')[-1], ci.name)
+        if from_model_attrs:
+            okn = r == 'built' and I.plain(cap.get('name')) == 'm'
+            run.check(okn, 'DATAFLOW.from_model', con, 'name and range of the model',
+                      'with name, T_low and T_high omitted the species must be fitted under the model\'s name over the '
+                      'model\'s own range; from_data received name=%s (result %s)' % (show(cap.get('name')), show(r, 60)),
+                      owner.module, fn)
+            n += 1
         if behaviour != 'vector':
             Tg, Cp = cap.get('T'), cap.get('CpoR')
             okg = r == 'built' and isinstance(Tg, Elem) and isinstance(Cp, Elem) and isinstance(Cp.r, Rat) and \
@@ -557,6 +572,8 @@ def from_model(run, repo):
                         return calls[a_]
             return None
         th, ts = sampled_at(href, 'get_HoRT'), sampled_at(sref, 'get_SoR')
+        if from_model_attrs:
+            con = con + ' [range of the model]'
         run.check(th is not None and isinstance(Tref, Rat) and same(th, Tref), 'DATAFLOW.ref-H', con, 'T_ref',
                   'HoRT_ref is sampled at %s but T_ref=%s is passed on' % (show(th), show(Tref)), owner.module, fn,
                   sample='%s: HoRT_ref = model.get_HoRT(T=T_ref), T_ref=%s' % (con, show(Tref)))
